@@ -3,3 +3,6 @@ package main
 import "container/list"
 
 func newList() *list.List { return list.New() }
+
+// sdkKey builds the server-side key object (the SDK type the server is configured with).
+func sdkKey(cipher, secret string) (*sdkEncryptionKey, error) { return sdkNewKey(cipher, secret) }
